@@ -105,6 +105,8 @@ def gen_cases(ck, sgs, allstrata):
             n = [ck.rng.randrange(-2, 3) for _ in range(3)]
             xs = [x0[j] + n[j] for j in range(3)]
             yield sg, "shift", xs, xs, zero, st[i]
+            n2 = [ck.rng.choice([-2, -1, -1, 1]) for _ in range(3)]
+            yield sg, "inside+shift", [x0[j] + n2[j] for j in range(3)], [xin[j] + n2[j] for j in range(3)], zero, st[i]
             if ck.tier == "thorough" or i in idx[:2]:
                 off = offs[1 + (sg.number + i) % 2]
                 xo = [x0[j] - off[j] for j in range(3)]
@@ -148,7 +150,7 @@ def check_impl(sg, kind, x0, x, off, expandPosition, GeneratorSite):
         return "operations are not attributed exactly once", None
     if len(pos) * len(got[0]) != n:
         return "multiplicity %d x stabiliser %d != group order %d" % (len(pos), len(got[0]), n), None
-    if kind in ("inside", "offset", "offset+shift", "inside+offset"):
+    if kind in ("inside", "offset", "offset+shift", "inside+offset", "inside+shift"):
         # GeneratorSite re-expands the (possibly adjusted) site: same orbit, also with a shifted origin
         gs = GeneratorSite(sg, xf, sgoffset=of, eps=1.0e-5)
         if gs.multiplicity != len(opos):
